@@ -23,6 +23,10 @@ use crate::util::{Budget, Report, Tier, Violation};
 use crate::world::{OptSet, Phys};
 
 fn workloads() -> Vec<Workload> {
+	workloads_for(true)
+}
+
+fn workloads_for(thorough: bool) -> Vec<Workload> {
 	let base = workload();
 	let mut v = vec![base.clone()];
 	let mut w2 = base.clone();
@@ -63,7 +67,22 @@ fn workloads() -> Vec<Workload> {
 		forced_height: 1,
 	};
 	w6.ops.insert(6, Wop::P(Phys::Reopen));
-	v.push(w6);
+	v.push(w6.clone());
+	// thorough tier only (appended, so that workload indices of the quick tier stay stable):
+	// the overwrite workload on the other storage configurations
+	if thorough {
+		for (name, opt) in [
+			("L2-memtable4k-overwrites-vlog8-64", OptSet::base("L2-memtable4k-overwrites-vlog8-64").memtable_size(4096).with_vlog(8, 64)),
+			("L2-memtable4k-overwrites-versioned-index", OptSet::base("L2-memtable4k-overwrites-versioned-index").memtable_size(4096).versioned(0, true)),
+			("L3-memtable4k-overwrites-flush-on-close", OptSet::base("L3-memtable4k-overwrites-flush-on-close").levels(3).memtable_size(4096).flush_close(true)),
+			("L2-memtable4k-overwrites-versioned-vlog", OptSet::base("L2-memtable4k-overwrites-versioned-vlog").memtable_size(4096).versioned(0, false).with_vlog(0, 64)),
+		] {
+			let _ = name;
+			let mut w = w6.clone();
+			w.opt = opt;
+			v.push(w);
+		}
+	}
 	v
 }
 
@@ -298,7 +317,7 @@ pub fn check(tier: Tier) -> i32 {
 	let mut seen = BTreeSet::new();
 	let mut all_counts = vec![];
 	let mut samples = vec![];
-	for (wi, wl) in workloads().into_iter().enumerate() {
+	for (wi, wl) in workloads_for(tier == Tier::Thorough).into_iter().enumerate() {
 		match check_one(&mut report, tier, &budget, wi, &wl, &mut per_class, &mut seen) {
 			Err(code) => return code,
 			Ok((done, planned, counts, sample)) => {
